@@ -1902,6 +1902,20 @@ impl Server {
         
         let mut new_members = 0;
         
+        // Validate every score before applying anything, so that a refused ZADD adds nothing.
+        // NaN is not a valid score.
+        for i in (2..parts.len()).step_by(2) {
+            match &parts[i] {
+                RespFrame::BulkString(Some(bytes)) => {
+                    match String::from_utf8_lossy(bytes).parse::<f64>() {
+                        Ok(n) if !n.is_nan() => {}
+                        _ => return Ok(RespFrame::error("ERR value is not a valid float")),
+                    }
+                }
+                _ => return Ok(RespFrame::error("ERR invalid score format")),
+            }
+        }
+        
         // Process each score-member pair
         for i in (2..parts.len()).step_by(2) {
             let score = match &parts[i] {
@@ -2376,8 +2390,8 @@ impl Server {
         let increment = match &parts[2] {
             RespFrame::BulkString(Some(bytes)) => {
                 match String::from_utf8_lossy(bytes).parse::<f64>() {
-                    Ok(n) => n,
-                    Err(_) => return Ok(RespFrame::error("ERR value is not a valid float")),
+                    Ok(n) if !n.is_nan() => n,
+                    _ => return Ok(RespFrame::error("ERR value is not a valid float")),
                 }
             }
             _ => return Ok(RespFrame::error("ERR invalid increment format")),
